@@ -116,6 +116,7 @@ def execute(case, result):
     kind, interval, start = case["kind"], case["interval"], case["start"]
     until = start + case["periods"] * interval
     pool = RecPool(demand=10, supply=10, utilisation=0.5, allocation=0.5, clock=vt.clock)
+    pool.max_log = 60 * (int(case["periods"]) + 10) + 5000  # far more accesses than one step per interval can make
     steps = []  # virtual times at which a regulation step was observed
     kw = {} if case["default_interval"] else {"interval": interval}
     children = []
